@@ -158,6 +158,6 @@ func (q Keeper) WrkChainStorage(c context.Context, req *types.QueryWrkChainStora
 		CurrentLimit:   wrkchainStorage.InStateLimit,
 		CurrentUsed:    wrkchain.NumBlocks,
 		Max:            maxStorageLimit,
-		MaxPurchasable: maxStorageLimit - wrkchainStorage.InStateLimit,
+		MaxPurchasable: q.GetMaxPurchasableSlots(ctx, req.WrkchainId),
 	}, nil
 }
